@@ -1963,6 +1963,7 @@ dt_ddiff(dt_durtyp_t tgttyp, struct dt_d_s d1, struct dt_d_s d2, int carry)
 		if (tgttyp == DT_DURBD) {
 			dt_dow_t wdb = __daisy_get_wday(tmp2);
 			res.dv = __get_nbdays(res.dv, wdb);
+			res.durtyp = DT_DURBD;
 		}
 		break;
 	}
